@@ -27,8 +27,8 @@ ST1 = [
    "L\ta\t+\tb\t-\t1M1D2M\tID:Z:l1\tKC:i:3", "L\tb\t-\tc\t+\t2I1M", "L\tc\t+\ta\t+\t1M", "C\tc\t+\tb\t-\t2\t1M1I1D2M",
    "P\tp1\ta+,b-,c+\t1M1D2M,2I1M", "P\tp2\tc-,b+\t*", "P\tp3\ta+,b-,c+\t1M1D2M,2I1M,1M", "#\tcomment"], 1),
  (["S\ta\t*", "S\tb\t*", "S\tc\t*", "L\ta\t+\ta\t-\t2M1I", "L\tb\t+\tc\t+\t2M", "L\tb\t+\tc\t+\t3M1D", "L\ta\t-\tb\t+\t1D1M",
-   "C\ta\t-\tc\t+\t0\t*", "P\tp1\ta-,b+,c+\t1D1M,3M1D\tzz:J:{\"k\":[1,2]}"], 3),
- (["S\t1\tAAAC\tSH:H:AF01", "S\t2\tACCC\tUR:Z:x y", "S\t3\t*\tLN:i:3\tfa:B:f,1.5,2", "L\t1\t+\t2\t+\t1M2D1M\tNM:i:1",
+   "C\ta\t-\tc\t+\t0\t*", "P\tp1\ta-,b+,c+\t1D1M,3M1D\tzz:J:{\"k\": [1, 2]}"], 3),
+ (["S\t1\tAAAC\tSH:H:AF01", "S\t2\tACCC\tUR:Z:x y", "S\t3\t*\tLN:i:3\tff:f:2.5", "L\t1\t+\t2\t+\t1M2D1M\tNM:i:1",
    "L\t2\t+\t3\t-\t1I1M", "C\t1\t+\t3\t+\t1\t3M", "P\t7\t1+,2+,3-\t1M2D1M,1I1M\tba:B:C,1,2"], 2),
 ]
 ST2 = [
